@@ -210,15 +210,30 @@ func Classify(r *Response, cfg Config) Class {
 		}
 		c.Fail = append(c.Fail, "status-line:prefix")
 	}
-	add(ClassifyVersion(r.Version))
-	if r.Version != "HTTP/1.1" && ClassifyVersion(r.Version) == "" {
-		c.Notes = append(c.Notes, "version:1.x")
+	// status-line = HTTP-version SP status-code SP reason-phrase (RFC 7230
+	// §3.1.2): both separators are mandatory, the reason may be empty.
+	version, status, twoSP := r.Version, r.Status, !r.NoReasonSP
+	if r.RawStatusLine != "" {
+		if hasCRLF(r.RawStatusLine) {
+			ambiguous = true
+		}
+		parts := strings.SplitN(r.RawStatusLine, " ", 3)
+		version, status, twoSP = parts[0], "", len(parts) == 3
+		if len(parts) > 1 {
+			status = parts[1]
+		}
 	}
-	add(ClassifyStatus(r.Status))
-	if r.NoReasonSP {
-		c.Open = append(c.Open, "status-line:no-second-sp")
-	} else if r.Reason != "Switching Protocols" {
-		c.Notes = append(c.Notes, "reason")
+	if !twoSP {
+		c.Fail = append(c.Fail, "status-line:no-second-sp")
+	} else {
+		add(ClassifyVersion(version))
+		if version != "HTTP/1.1" && ClassifyVersion(version) == "" {
+			c.Notes = append(c.Notes, "version:1.x")
+		}
+		add(ClassifyStatus(status))
+		if r.RawStatusLine != "" || r.Reason != "Switching Protocols" {
+			c.Notes = append(c.Notes, "reason")
+		}
 	}
 	if r.Cut > 0 {
 		c.Fail = append(c.Fail, "truncated-head")
@@ -421,7 +436,7 @@ func Classify(r *Response, cfg Config) Class {
 	// head still force a failure.
 	hard := false
 	for _, f := range c.Fail {
-		if strings.HasPrefix(f, "status:") || strings.HasPrefix(f, "version:") || f == "truncated-head" || f == "status-line:prefix" {
+		if strings.HasPrefix(f, "status:") || strings.HasPrefix(f, "version:") || f == "truncated-head" || f == "status-line:prefix" || f == "status-line:no-second-sp" {
 			hard = true
 		}
 	}
